@@ -1,0 +1,30 @@
+//go:build verif
+// +build verif
+
+// Exports for the external verification harness (/verif). Compiled only with -tags verif.
+
+package table
+
+// VerifFilterBlock returns the filter block as the reader holds it (trailer removed) together
+// with the fields readFilterBlock derived from it. ok is false when the reader uses no filter
+// (none configured, name not matched, block unreadable) or when block caching keeps it elsewhere.
+func VerifFilterBlock(r *Reader) (data []byte, oOffset int, baseLg uint, filtersNum int, ok bool) {
+	r.mu.RLock()
+	defer r.mu.RUnlock()
+	if r.filter == nil || r.filterBlock == nil {
+		return nil, 0, 0, 0, false
+	}
+	b := r.filterBlock
+	return append([]byte(nil), b.data...), b.oOffset, b.baseLg, b.filtersNum, true
+}
+
+// VerifFilterContains is the filter decision Reader.find takes for a key whose candidate data
+// block starts at offset. ok is false when the reader uses no filter.
+func VerifFilterContains(r *Reader, offset uint64, key []byte) (ans bool, ok bool) {
+	r.mu.RLock()
+	defer r.mu.RUnlock()
+	if r.filter == nil || r.filterBlock == nil {
+		return true, false
+	}
+	return r.filterBlock.contains(r.filter, offset, key), true
+}
